@@ -6,7 +6,7 @@ import (
 
 func init() {
 	register(&PropDef{ID: "C01", Level: "exploration", Gen: genC01, Check: checkC01})
-	register(&PropDef{ID: "C02", Level: "exploration", Gen: genC02, Check: checkC02})
+	register(&PropDef{ID: "C02", Stalls: true, Level: "exploration", Gen: genC02, Check: checkC02})
 	register(&PropDef{ID: "C10", Level: "exploration", Gen: genC10, Check: checkC10})
 	register(&PropDef{ID: "C11", Level: "exploration", Gen: genC11, Check: checkC11})
 }
